@@ -19,7 +19,9 @@ LEVEL_TEXT = ('Exploration: values with mutually comparable keys (G-val graphs i
               'values; a relational monitor in the parent compares the bytes every worker dumped (sort_keys=True, both back-ends) '
               'for the same value and options - this also pins the anchor names to the document. Inside each worker: a second build '
               'of the graph at other addresses must dump identically; with sort_keys=False the loaded key order must be the '
-              'insertion order; dump(load(dump(x))) must equal dump(x) under the same options.')
+              'insertion order; dump(load(dump(x))) must equal dump(x) under the same options (values include equal but distinct dates). '
+              'Two further workers run the address-independence and fixed-point clauses over the object universe of C17 (full dumper, '
+              'unsafe loader), starting one step later for classes whose own restore changes them.')
 LEVEL_NOTE = ('Held on the values, permutations and hash seeds generated (6 interpreters with distinct seeds incl. a random one).')
 TECHNIQUE = 'runtime monitoring: relational monitor over outputs of several interpreters (hash seeds x insertion orders) + in-process fixed-point and order oracles'
 DESIGN_REF = 'DESIGN.md section 3, C16'
